@@ -34,6 +34,10 @@ fn classify(p: &Path) -> String {
     match std::fs::symlink_metadata(p) {
         Err(_) => "missing".to_string(),
         Ok(m) if m.is_dir() => "dir".to_string(),
+        // the script's own dangling symbolic link, moved into place as it is
+        Ok(m) if m.file_type().is_symlink() && std::fs::read_link(p).map(|t| t == Path::new("not-built-yet")).unwrap_or(false) => {
+            "three".to_string()
+        }
         Ok(_) => match std::fs::read(p) {
             Ok(b) if b == b"0123456789" => "previous".to_string(),
             Ok(b) if b == b"three" => "three".to_string(),
@@ -55,7 +59,8 @@ fn record_batch() {
         let target: i64 = kv(&parts, "T").unwrap().parse().unwrap();
         let rv: i32 = kv(&parts, "RV").unwrap().parse().unwrap();
         let out: usize = kv(&parts, "OUT").unwrap().parse().unwrap();
-        let has3 = kv(&parts, "HAS3").unwrap() == "1";
+        let has3_kind = kv(&parts, "HAS3").unwrap();
+        let has3 = has3_kind != "0";
         let touch = kv(&parts, "TOUCH").unwrap();
         let fault = kv(&parts, "FAULT").unwrap_or("none");
         let tpath = base.join("tgt");
@@ -90,7 +95,11 @@ fn record_batch() {
         }
         let ino_script = std::fs::symlink_metadata(&tpath).ok().map(|m| m.ino());
         if has3 && fault != "create" {
-            std::fs::write(&tmp_name, b"three").unwrap();
+            if has3_kind == "2" {
+                std::os::unix::fs::symlink("not-built-yet", &tmp_name).unwrap();
+            } else {
+                std::fs::write(&tmp_name, b"three").unwrap();
+            }
         }
         let mut out_file = tempfile::tempfile().unwrap();
         if out > 0 {
